@@ -69,7 +69,7 @@ Qed.
 (* ---- the invariant ---- *)
 Section Inv.
   Variable src : text.
-  Variables awc pe : bool.
+  Variables awc pe iw : bool.
   Variable re_bad : list nat.
   Variable fx : fixes.
   Hypothesis Hfix : fix_target_span fx = true.
@@ -216,7 +216,7 @@ Section Inv.
   Qed.
 
   Lemma parse_rule_inv : forall i st errs k st' errs',
-    inv st -> parse_rule src pe re_bad fx i st errs = TOk (k, st') errs' -> inv st'.
+    inv st -> parse_rule src pe iw re_bad fx i st errs = TOk (k, st') errs' -> inv st'.
   Proof.
     intros i st errs k st' errs' Hi H. unfold parse_rule in H.
     apply lbind_ok in H. destruct H as [ll [_ H]].
@@ -244,7 +244,7 @@ Section Inv.
   Qed.
 
   Lemma parse_rules_inv : forall fuel i st errs k st' errs',
-    inv st -> parse_rules src awc pe re_bad fx fuel i st errs = TOk (k, st') errs' -> inv st'.
+    inv st -> parse_rules src awc pe iw re_bad fx fuel i st errs = TOk (k, st') errs' -> inv st'.
   Proof.
     induction fuel as [|fuel IH]; intros i st errs k st' errs' Hi H; [discriminate|].
     cbn [parse_rules] in H.
@@ -257,18 +257,18 @@ Section Inv.
     destruct (i1 =? src_len src); [inversion H; subst; assumption|].
     apply lbind_ok in H. destruct H as [sep [_ H]]. destruct sep as [j'|].
     - inversion H; subst; assumption.
-    - destruct (parse_rule src pe re_bad fx i1 st errs) as [[i2 st2] errs2| | |] eqn:Er; try discriminate.
+    - destruct (parse_rule src pe iw re_bad fx i1 st errs) as [[i2 st2] errs2| | |] eqn:Er; try discriminate.
       eapply IH; [|exact H]. eapply parse_rule_inv; eauto.
   Qed.
 
   Lemma parse_inv : forall fuel start st,
-    parse src awc pe re_bad fx fuel start = Done (POk st) -> inv st.
+    parse src awc pe iw re_bad fx fuel start = Done (POk st) -> inv st.
   Proof.
     intros fuel start st H. unfold parse in H.
     destruct (parse_declarations src awc fuel start initial_state []) as [[i1 st1] errs1| | |] eqn:Ed; try discriminate.
     unfold parse_declarations in Ed. apply lbind_ok in Ed. destruct Ed as [i0 [_ Ed]].
     apply parse_declarations_loop_inv in Ed; [|apply inv_initial].
-    destruct (parse_rules src awc pe re_bad fx fuel i1 st1 errs1) as [[i2 st2] errs2| | |] eqn:Er; try discriminate.
+    destruct (parse_rules src awc pe iw re_bad fx fuel i1 st1 errs1) as [[i2 st2] errs2| | |] eqn:Er; try discriminate.
     apply parse_rules_inv in Er; [|assumption].
     assert (Hf : forall e, Done (finish st2 e) = Done (POk st) -> inv st).
     { intros e He. unfold finish in He. destruct e; inversion He; subst; assumption. }
@@ -289,7 +289,7 @@ Qed.
 
 Lemma spans_index_source : spans_index_source_stmt.
 Proof.
-  intros fx src pos awc pe re_bad st Hh Ht H. unfold lex_from_str in H.
+  intros fx src pos awc pe iw re_bad st Hh Ht H. unfold lex_from_str in H.
   apply obind_ok in H. destruct H as [s [_ H]]. rewrite Hh in H.
   apply inv_names_indexed. eapply parse_inv; eauto.
 Qed.
@@ -301,7 +301,7 @@ Definition refute_src : text :=
 
 Lemma spans_index_source_refuted : spans_index_source_refuted_stmt.
 Proof.
-  exists refute_src, 11, false, false.
+  exists refute_src, 11, false, false, false.
   eexists. split; [vm_compute; reflexivity|].
   intros [H _]. specialize (H _ [73; 68]%N (or_introl eq_refl) eq_refl).
   unfold selects in H. vm_compute in H. discriminate.
@@ -313,7 +313,7 @@ Definition refute_target_src : text :=
 
 Lemma target_span_refuted : target_span_refuted_stmt.
 Proof.
-  exists refute_target_src, false, false.
+  exists refute_target_src, false, false, false.
   eexists. split; [vm_compute; reflexivity|].
   intros [H _]. specialize (H _ [84; 79; 75]%N (or_introl eq_refl) eq_refl).
   unfold selects in H. vm_compute in H. discriminate.
